@@ -602,20 +602,21 @@ class Mutations:
                 # network architectures for different agents)
                 if eval_module[0].activation is None:
                     no_activation = True
+            elif eval_module.activation is None:
+                no_activation = True
 
-                eval_module = [self._permutate_activation(mod) for mod in eval_module]
-            else:
-                if eval_module.activation is None:
-                    no_activation = True
-
-                eval_module = self._permutate_activation(eval_module)
-
+            # Nothing is changed (and nothing reported) without activation capabilities
             if no_activation:
                 warnings.warn(
                     "Found no activation mutation capabilities. We advise setting the probability to "
                     "0.0 to disable activation mutations."
                 )
                 break
+
+            if isinstance(eval_module, list):
+                eval_module = [self._permutate_activation(mod) for mod in eval_module]
+            else:
+                eval_module = self._permutate_activation(eval_module)
             if self.accelerator is None:
                 eval_module = self.to_device(eval_module)
 
